@@ -17,10 +17,10 @@ func init() {
 	addRule("C06", "truncatestrict", 1, ruleTruncateStrict)
 	addRule("C07", "truncatestrict", 1, ruleTruncateStrict)
 	for _, id := range []string{"C08", "C09"} {
-		addRule(id, "borderletter", 4, func(c *Ctx, r string) { ruleBorderLetter(c, r, aligners(c, "NW", "NWAffine")) })
+		addRule(id, "borderletter", 2, func(c *Ctx, r string) { ruleBorderLetter(c, r, aligners(c, "NW", "NWAffine")) })
 	}
-	addRule("C08", "argcheck", 12, func(c *Ctx, r string) { ruleArgCheck(c, r, all) })
-	addRule("C08", "stride", 40, func(c *Ctx, r string) { ruleStride(c, r, aligners(c, all...)) })
+	addRule("C08", "argcheck", 4, func(c *Ctx, r string) { ruleArgCheck(c, r, all) })
+	addRule("C08", "stride", 13, func(c *Ctx, r string) { ruleStride(c, r, aligners(c, all...)) })
 	addRule("C09", "firstcellguard", 0, func(c *Ctx, r string) { ruleFirstCellGuard(c, r, aligners(c, all...)) })
 	addRule("C15", "samestrand", 1, ruleSameStrand)
 
